@@ -28,6 +28,24 @@ PROPS = {
         "level_text": "All four clauses are Lean theorems over every shape (structural induction, no bound): subset_refl, subset_as_optional, null_subset_optional, similar_spec. The model's isSubset/similar/as_optional are compared with the real functions on every run (all pairs of a small-scope universe + random deep shapes), and the property is also evaluated directly on the real code for each generated case.",
         "level_note": "Trusted: Lean kernel; the hand-written model of value.rs/subset.rs/subtypes.rs (tied by differential testing only); BTreeMap/BTreeSet as sorted lists. Well-formedness (sorted, duplicate-free maps/sets) is a hypothesis every Rust value satisfies by construction.",
     },
+    "C01": {
+        "module": "ShapeVerif.Props.C01",
+        "theorems": ["ShapeVerif.sources_sound", "ShapeVerif.one_more", "ShapeVerif.merger_never_evicts",
+                     "ShapeVerif.infer_sound_C01", "ShapeVerif.d3_counterexample",
+                     "ShapeVerif.merger_wf", "ShapeVerif.infer_wf"],
+        "statements": {
+            "sources_sound": "h ≠ [] → (∀ d ∈ h, inferDoc d succeeds) → (∀ d ∈ h, conflictFree d) → ∃ s, fromSourcesDoc h = ok s ∧ s.wf ∧ ∀ d ∈ h, admits s d",
+            "one_more": "fromSourcesDoc h = ok s → fromSourcesDoc (h ++ [d]) = ok s' → admits s x → admits s' x   (no side condition)",
+            "merger_never_evicts": "a.wf → b.wf → admits a x ∨ admits b x → admits (merger a b) x",
+            "d3_counterexample": "[{\"a\":1},{\"a\":\"s\"}] is inferred as Array<Object{a: Number}>, which does not admit it (negation of the full statement on the known-finding witness)",
+        },
+        "partial": ["sources_sound carries the hypothesis conflictFree (the exact complement of known finding D3); the full statement is refuted by d3_counterexample",
+                    "text level (JsonShape::from_sources on strings) composes with the parser model (C04); until then the text layer is covered by the correspondence/oracle on real texts"],
+        "rule": "histories of 1-5 type-directed random documents (nesting <= 4, empty containers, arrays of objects with missing keys, tuples, repeated/re-rendered/tweaked documents), every prefix of each history, plus merger on all ordered pairs of the small-scope shape universe and single-document inference on random documents. Oracle: admits(from_sources(h), d) for every d in h and witness monotonicity between consecutive prefixes. Non-trivial = container shape involved.",
+        "assumptions": ["documents are compared as parsed by the reference RFC 8259 parser (Ref/Rfc8259.lean); member names without escapes"],
+        "level_text": "sources_sound (every source is a member of the inferred shape, any order/repetition) and one_more (adding a document never evicts) are Lean theorems over all histories, resting on merger_sound/merger_wf/infer_sound/infer_wf proved by induction over all shapes/documents. sources_sound is stated under conflictFree, the exact complement of recorded known finding D3 (pinned by the repo's own snapshot test); the negation on the D3 witness is proved too. merger, inference and from_sources of the model are compared with the real code on every run, and membership is re-checked on the real code's results with the independent `admits`.",
+        "level_note": "Trusted: Lean kernel; hand-written model of shape/mod.rs (parse_rule on document trees), merger.rs, subset.rs tied by differential testing; reference semantics Ref/Sem.lean; the reference JSON parser stands in for the library's lexer/parser at this level (the text layer is C04's subject).",
+    },
     "C02": {
         "module": "ShapeVerif.Props.C02",
         "theorems": ["ShapeVerif.subset_sound"],
@@ -68,6 +86,23 @@ def sample_indices(n):
 def oracle(pid, ops, impl, tier):
     """Returns [(driver_op, wanted_result_prefix, why, source_op)] evaluated with reference definitions."""
     out = []
+    if pid in ("C01",):
+        prev = None
+        for o, r in zip(ops, impl):
+            f = o.split("\t")
+            if f[0] != "sourcesdoc":
+                prev = None
+                continue
+            if r.startswith("ok "):
+                shape = r[3:]
+                for t in f[1:]:
+                    out.append((f"admits\t{shape}\t{t}", "true", "every source must be a member of the shape inferred from the sources", o))
+                # history monotonicity: this history extends the previous one by one document
+                if prev is not None and f[1:-1] == prev[0]:
+                    out.append((f"witness\t{prev[1]}\t{shape}", "ok", "feeding one more document must not remove an admitted document (witnesses of the previous shape)", o))
+                prev = (f[1:], shape)
+            else:
+                prev = None
     if pid == "C02":
         for o, r in zip(ops, impl):
             f = o.split("\t")
@@ -78,6 +113,13 @@ def oracle(pid, ops, impl, tier):
             elif f[0] == "supersetchk" and r == "ok true":
                 out.append((f"admits\t{f[1]}\t{f[2]}", "true", "is_superset_checked answered Ok(true): the text must be admitted", o))
     return out
+
+
+def expect_ok(got, want):
+    """`want` ending in * is a prefix pattern."""
+    if want.endswith("*"):
+        return got.startswith(want[:-1])
+    return got == want
 
 
 def oracle_ok(got, want):
@@ -132,9 +174,15 @@ def match_known_batch(pid, failures, known, run_model):
             if "op_equals" in m and f.get("op") == m["op_equals"]:
                 res[i] = k
     if "d3" in by_class:
-        idx = [i for i, f in enumerate(failures) if res[i] is None and texts_of(f.get("op", ""))]
+        def texts(f):
+            # a failed membership check is classified by the failing document alone
+            oo = f.get("oracle_op", "")
+            if oo.startswith("admits\t"):
+                return texts_of(oo)
+            return texts_of(f.get("op", ""))
+        idx = [i for i, f in enumerate(failures) if res[i] is None and texts(f)]
         if idx:
-            ops = ["kfclass\td3\t" + "\t".join(texts_of(failures[i]["op"])) for i in idx]
+            ops = ["kfclass\td3\t" + "\t".join(texts(failures[i])) for i in idx]
             _, out = run_model(ops)
             for i, r in zip(idx, out):
                 if r == "true":
